@@ -269,6 +269,7 @@ def run_dict(cx: Ctx, spec, rng):
         kind = L.kind_of(e["type"])
         cx.dict_cov.add((code, vendor))
         m_default = bool(e.get("mandatory"))
+        check_vendor_cross(cx, code, vendor, rng)
         if kind == "grouped":
             kids = build_children(cx, rng, depth=1, maxdepth=2)
             check_group(cx, code, vendor, kids, m_default, False, via_new=True, default_m=True)
@@ -285,6 +286,30 @@ def run_dict(cx: Ctx, spec, rng):
             check_default_m(cx, code, vendor, kind, v, m_default)
             m, p = bool((j + code) & 1), bool((j + code) & 2)
             check_value(cx, "new", kind, code, vendor, v, m, p, via_new=True)
+
+
+def check_vendor_cross(cx, code, vendor, rng):
+    """The same code under other vendor ids for which the dictionary has no entry must decode as the
+    generic type and be refused by Avp.new (lookup is by the (code, vendor) pair)."""
+    from diameter.message.avp import Avp
+    L = cx.L
+    for other in (0, 10415, 99999, 193, rng.randrange(200000, 1 << 32)):
+        if other == vendor or L.dict_lookup(code, other) is not None:
+            continue
+        payload = rng.randbytes(rng.choice([0, 3, 4, 8]))
+        wire = R.enc_avp(code, payload, other, rng.choice([0, 0x40]))
+        cx.note("vendor-cross", "raw", code, other, wire[4], payload)
+        cx.matrix["vendor_cross_probes"] = cx.matrix.get("vendor_cross_probes", 0) + 1
+        check_decode(cx, wire)
+        try:
+            Avp.new(code, other)
+        except ValueError:
+            pass
+        except Exception as e:
+            cx.witness("new.unknown_pair.wrong_exception", {"code": code, "vendor": other, "exc": repr(e)[:120]})
+        else:
+            cx.witness("new.unknown_pair.accepted", {"code": code, "vendor": other},
+                       {"op": "wire", "wire": wire.hex()})
 
 
 def check_default_m(cx, code, vendor, kind, v, m_default):
